@@ -103,6 +103,14 @@ type FuncCtx struct {
 	coverFail      []string
 	poison         *poisonState
 	rfamCache      []famInst
+	recInfos       map[*SpecFunc]*recInfo
+	recBuilding    *recInfo
+	recSeen        map[string]bool
+	recInfoOrder   []*SpecFunc
+	recSeenOrder   []string
+	recUnfold      []recFact
+	recFrames      []recFact
+	recTop         []recApp
 	deferred       []*ast.DeferStmt
 	curNode        ast.Node
 	defs           map[string]string
@@ -210,10 +218,12 @@ type fxSnapshot struct {
 	nObls    int
 	nExits   int
 	oblNames map[string]int
+	nRecInfo, nRecSeen, nRecUnfold, nRecFrames, nRecTop int
 }
 
 func (fx *FuncCtx) snapshot() fxSnapshot {
 	s := fxSnapshot{nDecls: len(fx.decls), freshN: map[string]int{}, nObls: len(fx.obls), nExits: len(fx.exits), oblNames: map[string]int{}}
+	s.nRecInfo, s.nRecSeen, s.nRecUnfold, s.nRecFrames, s.nRecTop = len(fx.recInfoOrder), len(fx.recSeenOrder), len(fx.recUnfold), len(fx.recFrames), len(fx.recTop)
 	for k, v := range fx.freshN {
 		s.freshN[k] = v
 	}
@@ -230,6 +240,15 @@ func (fx *FuncCtx) restore(s fxSnapshot) {
 		delete(fx.declSet, d)
 	}
 	fx.decls = fx.decls[:s.nDecls]
+	for _, sp := range fx.recInfoOrder[s.nRecInfo:] {
+		delete(fx.recInfos, sp)
+	}
+	fx.recInfoOrder = fx.recInfoOrder[:s.nRecInfo]
+	for _, k := range fx.recSeenOrder[s.nRecSeen:] {
+		delete(fx.recSeen, k)
+	}
+	fx.recSeenOrder = fx.recSeenOrder[:s.nRecSeen]
+	fx.recUnfold, fx.recFrames, fx.recTop = fx.recUnfold[:s.nRecUnfold], fx.recFrames[:s.nRecFrames], fx.recTop[:s.nRecTop]
 	fx.freshN = map[string]int{}
 	for k, v := range s.freshN {
 		fx.freshN[k] = v
@@ -809,6 +828,26 @@ func (fx *FuncCtx) buildQuery(hyps []Term, goal Term) string {
 		b.WriteString("(assert ")
 		b.WriteString(h)
 		b.WriteString(")\n")
+	}
+	if len(fx.recInfos) > 0 {
+		var tb strings.Builder
+		for _, h := range hyps {
+			tb.WriteString(h.S)
+		}
+		for _, h := range extra {
+			tb.WriteString(h)
+		}
+		tb.WriteString(goal.S)
+		for _, d := range fx.decls {
+			if strings.HasPrefix(d, "(define-fun ") && strings.Contains(d, "(rs_") {
+				tb.WriteString(d)
+			}
+		}
+		for _, f := range fx.recFactsFor(tb.String()) {
+			b.WriteString("(assert ")
+			b.WriteString(f)
+			b.WriteString(")\n")
+		}
 	}
 	b.WriteString("(assert (not ")
 	b.WriteString(goal.S)
